@@ -25,10 +25,12 @@ LEVEL_TEXT = ('static analysis: (D1) do_target interpreted on symbolic baits: wo
               ' itself is exact on literal tables, keeping the accessible regions of untargeted contigs whole (C06-D1b); (D4) a region is binned '
               '<=> span >= minimum, pieces chain from start to end (rule of C06-D5); (D5) drop_noncanonical_contigs keeps an accessible contig '
               '<=> it is targeted or canonically named (when some target is canonical), else <=> targeted or not longer-named than the longest '
-              'targeted one. (CLI) the `target / antitarget` command line(s), through a model of argparse built from the declarations in '
-              'commands.py and the real _cmd_ body interpreted with readers, library step and writers stubbed: annotation, --short-names, '
-              '--split, average and minimum sizes reach do_target / do_antitarget and the output is written under the given or the default name. '
-              "Does not decide 'at most 1.5x the average size', coverage of every off-target stretch, or the chromosome-length heuristic.")
+              'targeted one. D2 runs get_antitargets for three average bin sizes: without an access file the chromosome extents are guessed '
+              'skipping 150 kb, whatever the bin size. (CLI) the `target / antitarget` command line(s), through a model of argparse built from '
+              'the declarations in commands.py and the real _cmd_ body interpreted with readers, library step and writers stubbed: annotation, '
+              '--short-names, --split, average and minimum sizes reach do_target / do_antitarget and the output is written under the given or the'
+              " default name. Does not decide 'at most 1.5x the average size', coverage of every off-target stretch, or the chromosome-length "
+              'heuristic.')
 TECHNIQUE = "abstract interpretation with recorded method summaries (argument / order capture); column-write-set lint; small-scope exhaustive interpretation of shorten_labels; shared precondition and chaining rules"
 
 
